@@ -23,7 +23,7 @@ import (
 // discarding.
 
 func init() {
-	register(&simcore.Check{ID: "C07", Bubble: true, Liveness: true, Body: c07Body, AltBody: c07bBody, AltPct: 30, AltSched: true})
+	register(&simcore.Check{ID: "C07", Bubble: true, Liveness: true, Body: c07Body, AltBody: c07AltBody, AltPct: 40, AltSched: true})
 }
 
 func c07Body(r *simcore.Run) {
